@@ -152,7 +152,40 @@ class C16(CheckBase):
             v["callee"] = callee
         return v
 
+    def gen_interrupted_reload(self, ch: Choices) -> dict:
+        """A focused history: a version is in use; the next one (more
+        macros) is being loaded when an asynchronous exception arrives at a
+        line that touches the instance's state; the very next use already
+        finds a third version that defines fewer macros."""
+        p = "d0/a.pt"
+        m1 = sorted(ch.sample(range(4), ch.choose(3)))
+        m2 = sorted(set(m1) | set(ch.sample(range(4), 1 + ch.choose(2))))
+        m3 = sorted(ch.sample(m1, ch.choose(len(m1) + 1))) if m1 else []
+
+        def v(n, macros):
+            return {"tag": "d0_a.pt.v%d" % n, "flavour": ch.pick(
+                ["html", "html", "xml"]), "macros": macros}
+        ops = [[ch.pick(["render", "names", "ctype"]), 0],
+               ["write", p, v(2, m2), 1.0, "atomic"],
+               [ch.pick(["render", "names", "use", "ctype"]), 0],
+               ["write", p, v(3, m3), ch.pick([1.0, 1.0, 0.001]), "atomic"],
+               ["names", 0], ["render", 0]]
+        if ops[2][0] == "use":
+            ops[2].append(ch.choose(4))
+        mode = ch.weighted([(6, "access"), (2, "distinct"), (1, "creturn")])
+        faults = {"2": {"kind": "interrupt", "mode": mode,
+                        "nth": 1 + ch.choose(36 if mode != "distinct" else 90),
+                        "exc": ch.pick(["KeyboardInterrupt", "MemoryError",
+                                        "SystemExit"])}}
+        return {"dirs": ["d0"], "search_path": ["d0"], "pkg_path": False,
+                "default_extension": None, "auto_reload": True,
+                "files": {p: v(1, m1)},
+                "objects": [{"path": p, "auto_reload": True}],
+                "ops": ops, "faults": faults, "format": "xml"}
+
     def gen(self, ch: Choices, tier: str) -> dict:
+        if ch.coin(0.1):
+            return self.gen_interrupted_reload(ch)
         ndirs = 1 + ch.choose(3)
         dirs = ["d%d" % i for i in range(ndirs)]
         names = ch.sample(["a.pt", "b.pt", "index", "x.y.pt", "page.html",
@@ -275,7 +308,7 @@ class C16(CheckBase):
             faults.clear()
             faults.update(moved)
 
-        if ch.coin(0.3):
+        if ch.coin(0.4):
             for _ in range(1 + ch.choose(2)):
                 i = ch.choose(len(ops))
                 if ops[i][0] in ("render", "names", "use", "ctype", "load") \
@@ -292,13 +325,26 @@ class C16(CheckBase):
                         i += 1
                         # ... and the object is used again afterwards
                         k2 = ch.pick(["render", "names", "use"])
-                        insert_op(min(i + 1 + ch.choose(2), len(ops)),
-                                  [k2, ops[i][1]] +
-                                  ([ch.choose(4)] if k2 == "use" else []))
+                        if ch.coin(0.5):
+                            # ... the very next use already finds a further
+                            # version that defines fewer macros (whatever
+                            # the interrupted reload left behind must go;
+                            # a use of the interrupted version in between
+                            # would complete that reload first)
+                            v_ = newv(o["path"], allow_broken=False)
+                            v_["macros"] = v_["macros"][:ch.choose(2)]
+                            insert_op(i + 1, ["write", o["path"], v_, 1.0,
+                                              "atomic"])
+                            insert_op(i + 2, ["names", ops[i][1]])
+                        else:
+                            insert_op(min(i + 1 + ch.choose(2), len(ops)),
+                                      [k2, ops[i][1]] +
+                                      ([ch.choose(4)] if k2 == "use" else []))
                     faults[str(i)] = {
                         "kind": "interrupt", "mode": mode,
                         "nth": 1 + ch.choose(
-                            25 if mode in ("access", "creturn") else
+                            36 if mode == "access" else
+                            25 if mode == "creturn" else
                             ch.pick([12, 60, 250])),
                         "exc": ch.pick(["KeyboardInterrupt", "MemoryError",
                                         "SystemExit", "KeyboardInterrupt"])}
